@@ -28,11 +28,12 @@ CLAIM = {"text": "binary->Module->binary is the identity on canonical binaries, 
          "engine": "K1 wasmgen + node adapter"}
 
 STYLES = ("flat", "folded", "inline")
+ORDER_BASE = 0          # workers add 10**6 so that the witnesses of the simplest-first pre-pass win
 
 
 # ---------------------------------------------------------------- work items
 
-def work_items(tier, seed):
+def work_items(tier, seed, skip_struct=0):
     from vf.gen import wasmgen as W
     items = [("tree", g) for g in W.tree_groups(tier)]
     if tier == "quick":
@@ -42,7 +43,7 @@ def work_items(tier, seed):
         items += [("sk", 2, None, i, 64) for i in range(64)]
     n = W.count(struct_configs(tier))
     step = 40
-    items += [("struct", i, min(n, i + step)) for i in range(0, n, step)]
+    items += [("struct", i, min(n, i + step)) for i in range(skip_struct, n, step)]
     return items
 
 
@@ -218,13 +219,15 @@ def func_atoms(wit, j=None):
 
 def pick_feature(atoms, bad):
     """One locus per defect: prefer an atom already known to fail alone (from the depth-1 pre-pass)."""
+    badn = set(norm_atom(b) for b in bad)
     for a in atoms:
-        if a in bad:
-            return a
+        if a in bad or norm_atom(a) in badn:
+            return a if "/" in a or "=" in a else norm_atom(a)
+    fams = []
     for a in atoms:
-        if _VARIANT.sub("", a) in bad:
-            return _VARIANT.sub("", a)
-    return atoms[0] if len(atoms) == 1 else "+".join(atoms[:2])
+        if norm_atom(a) not in fams:
+            fams.append(norm_atom(a))
+    return fams[0] if len(fams) == 1 else "+".join(fams[:2])
 
 
 # ---------------------------------------------------------------- binary sections (for diagnostics)
@@ -280,6 +283,35 @@ def code_bodies(payload):
         return None
 
 
+LAST_OFFSET = None
+
+
+def norm_atom(a):
+    """Family name of an operator atom: immediates dropped, loads/stores collapsed."""
+    a = _VARIANT.sub("", a)
+    if "." in a:
+        name = a.split(".", 1)[1]
+        if name.startswith("load"):
+            return "load"
+        if name.startswith("store"):
+            return "store"
+    return a
+
+
+def located_feature(m, sec, fidx):
+    """Locus from the position of the first differing byte: the instruction containing it, else the section."""
+    from vf.gen import wasmgen as W
+    if sec == "code" and fidx is not None and LAST_OFFSET is not None and fidx < len(m.funcs):
+        n = W.locate(m, fidx, LAST_OFFSET)
+        if n is None:
+            return "locals-or-end"
+        lab = W.node_label(n)
+        if lab.endswith(".const") and not isinstance(n, (W.Blk, W.If)):
+            return lab + "/" + const_class(lab[:3], n.imm)
+        return norm_atom(lab)
+    return "section:" + sec
+
+
 def first_difference(ref, got):
     """(section name, function index or None) of the first difference between two binaries."""
     if ref[:8] != got[:8]:
@@ -294,6 +326,8 @@ def first_difference(ref, got):
                 if ba and bb and len(ba) == len(bb):
                     for j, (x, y) in enumerate(zip(ba, bb)):
                         if x != y:
+                            global LAST_OFFSET
+                            LAST_OFFSET = next((i for i, (c, d) in enumerate(zip(x, y)) if c != d), min(len(x), len(y)))
                             return "code", j
             return SECTION_NAMES.get(sa, str(sa)), None
     if len(a) != len(b):
@@ -329,9 +363,12 @@ def check_module(p, wit, m, calls, bad, pending):
     pending.append(entry)
     atoms_all = func_atoms(wit)
 
-    def fail(oracle, what, style=None, fidx=None, exc=None):
+    def fail(oracle, what, style=None, fidx=None, exc=None, sec=None):
         atoms = loc_atoms(wit, m, fidx)
-        feat = pick_feature(atoms, bad.get(oracle, ()))
+        if sec is not None:
+            feat = located_feature(m, sec, fidx)
+        else:
+            feat = pick_feature(atoms, bad.get(oracle, ()))
         w = dict(wit)
         w["style"] = style
         w["oracle"] = oracle
@@ -339,7 +376,7 @@ def check_module(p, wit, m, calls, bad, pending):
             key = exc_key("%s/%s" % (oracle, feat), exc)
         else:
             key = "%s/%s" % (oracle, feat)
-        p.violation(key, what, w)
+        p.violation(key, what, w, order=p.evaluations + ORDER_BASE)
         p.collect("failing_atoms:" + oracle, "|".join(atoms))
 
     # (1) binary -> Module -> binary
@@ -352,7 +389,7 @@ def check_module(p, wit, m, calls, bad, pending):
         if out != ref:
             sec, fidx = first_difference(ref, out)
             fail("bin-roundtrip", "Module(bin).to_bytes() != bin (first difference in %s section%s); bin=%s got=%s" %
-                 (sec, "" if fidx is None else " func %d" % fidx, ref.hex(), out.hex()), fidx=fidx)
+                 (sec, "" if fidx is None else " func %d" % fidx, ref.hex(), out.hex()), fidx=fidx, sec=sec)
     except CpuTimeout:
         fail("bin-roundtrip/hang", "Module(bin).to_bytes() exceeded 20 s CPU; bin=%s" % ref.hex())
     except Exception as ex:  # noqa
@@ -371,7 +408,7 @@ def check_module(p, wit, m, calls, bad, pending):
             if back != ref and mb.to_bytes() == ref:
                 sec, fidx = first_difference(ref, back)
                 fail("bin-text-bin", "Module(Module(bin).to_string()).to_bytes() != bin (first difference in %s section%s); bin=%s" %
-                     (sec, "" if fidx is None else " func %d" % fidx, ref.hex()), fidx=fidx)
+                     (sec, "" if fidx is None else " func %d" % fidx, ref.hex()), fidx=fidx, sec=sec)
         except CpuTimeout:
             fail("bin-text-bin/hang", "to_string/re-parse exceeded 20 s CPU; bin=%s" % ref.hex())
         except Exception as ex:  # noqa
@@ -410,7 +447,7 @@ def check_module(p, wit, m, calls, bad, pending):
             if b2 != b1:
                 sec, fidx = first_difference(b1, b2)
                 fail("text-fixpoint", "t=Module(wat): Module(t.to_string()).to_bytes() != t.to_bytes() (first difference in %s section%s)" %
-                     (sec, "" if fidx is None else " func %d" % fidx), style, fidx=fidx)
+                     (sec, "" if fidx is None else " func %d" % fidx), style, fidx=fidx, sec=sec)
             if s2 != s1:
                 p.count("to_string_not_textual_fixpoint")
         except CpuTimeout:
@@ -465,23 +502,22 @@ def judge(p, pending, bad):
             r = rs[b]
             sec, fidx = first_difference(e["extra_refs"].get(style, e["ref"]), b)
             atoms = loc_atoms(wit, e["m"], fidx)
+            located = located_feature(e["m"], sec, fidx)
             w = dict(wit)
             w["style"] = style
             w["oracle"] = "text-to-binary"
             if not r["valid"] or r["stage"] != "run":
-                feat = pick_feature(atoms, bad.get("text-to-binary", ()))
-                p.violation("text-to-binary/v8-rejects/" + feat,
+                p.violation("text-to-binary/v8-rejects/" + located,
                             "Module(wat).to_bytes() of %s-style text is rejected by V8 (%s: %s) while the reference binary is accepted; first difference "
                             "in %s section%s; ppci=%s ref=%s" % (style, r["stage"], r.get("error"), sec, "" if fidx is None else " func %d" % fidx,
-                                                                 b.hex(), e["ref"].hex()), w)
+                                                                 b.hex(), e["ref"].hex()), w, order=p.evaluations + ORDER_BASE)
                 p.collect("failing_atoms:text-to-binary", "|".join(atoms))
                 continue
             d = behaviour_difference(mine, r)
             if d:
-                feat = pick_feature(atoms, bad.get("text-to-binary", ()))
-                p.violation("text-to-binary/behaviour/" + feat,
+                p.violation("text-to-binary/behaviour/" + located,
                             "binary from %s-style text behaves differently in V8 than the reference binary: %s; first difference in %s section%s; "
-                            "ppci=%s ref=%s" % (style, d, sec, "" if fidx is None else " func %d" % fidx, b.hex(), e["ref"].hex()), w)
+                            "ppci=%s ref=%s" % (style, d, sec, "" if fidx is None else " func %d" % fidx, b.hex(), e["ref"].hex()), w, order=p.evaluations + ORDER_BASE)
                 p.collect("failing_atoms:text-to-binary", "|".join(atoms))
             else:
                 p.count("text_binary_differs_but_v8_equivalent")
@@ -509,8 +545,10 @@ def behaviour_difference(a, b):
 
 
 def worker(p, shard, tier, bad):
+    global ORDER_BASE
     from vf.core import use_repo
     use_repo()
+    ORDER_BASE = 10 ** 6
     pending = []
     for item in shard:
         for wit, m, calls in modules_of(item, tier):
@@ -556,7 +594,7 @@ def prepass(ctx, tier):
     for k in list(bad):
         if k.startswith("text-parse/"):
             bad[k] = bad["text-parse"]
-    return bad
+    return bad, p, len(singles)
 
 
 def run(ctx):
@@ -565,9 +603,10 @@ def run(ctx):
     from vf.gen import wasmgen as W
     node.selfcheck()
     tier = ctx.tier
-    bad = prepass(ctx, tier)
+    bad, pre, n_singles = prepass(ctx, tier)
+    ctx.merge(pre)
     ctx.note("operators_failing_alone", {k: sorted(v)[:60] for k, v in bad.items()})
-    items = work_items(tier, ctx.seed)
+    items = [it for it in work_items(tier, ctx.seed, n_singles) if it != ("tree", ("d1",))]
     ctx.note("work_items", len(items))
     m0 = W.module_of_funcs([(W.FT((W.I32,), (W.I32,)), (), [W.Ins("i32.add", None, [W.lget(0), W.i32c(1)])])])
     ctx.sample({"wat": W.wat(m0, "folded"), "binary": W.encode(m0).hex()})
